@@ -154,6 +154,12 @@ def explore_load(prop, tier, seed, oracle, tags, n_quick, emit=(), with_truth=Fa
         ex.submit(cid, D, o.tags, tags, emit=emit, extra=o)
     def custom(cid, D, pytags, L, o):
         out = []
+        # echo of the theorems' hypotheses / conclusions, evaluated by the model on this case:
+        # WF (C02) + registration exact + genome sizes exact (C04), and "the family realises its history" (C03)
+        if L.get('wf') not in (None, ['111']):
+            out.append(('model-wf-regExact-sizesExact', [], L.get('wf')))
+        if with_truth and any(x != '1' for x in L.get('real', [])) and not D.meta.get('nested_only_raw'):
+            out.append(('model-realises-history', [], L.get('real')))
         if with_truth:
             lf = sorted(x.split('=', 1)[1] for x in L.get('forest', []))
             if lf != sorted(L.get('truth', [])):
